@@ -301,7 +301,7 @@ class HostileWorld(World):
     STUB = ["sockets/selector (in-memory)", "threads (baton scheduler)", "time (virtual clock)", "hostile peers (raw scripted writers)"]
     PROBES = ["pool_full_refusal", "exc_response_fallback", "unknown_serializer", "oversize_refused", "truncated",
               "garbage", "hostile_after_handshake", "hostile_before_handshake", "rst_end", "witness_calls_ok", "fresh_client_ok",
-              "nasty_exception", "multiplex", "thread", "commtimeout"]
+              "nasty_exception", "multiplex", "thread", "commtimeout", "stalling_peer"]
     RULE = ("plan = (server type, COMMTIMEOUT, pool size 1..4, 1-2 witnesses x 3-6 calls, 1-3 hostile peers each with a script of "
             "1-4 message specs = valid base message + field mutations + truncation, end by close or RST, gaps, fragmentation, "
             "selector shuffle, scheduling probabilities); distinct = distinct interleaving digest; non-trivial = at least one hostile "
@@ -328,8 +328,11 @@ class HostileWorld(World):
                 msgs.append({"base": "connect", "obj": "tok", "ser": rng.choice([1, 2, 3, 4]), "arg": 0, "seq": 0, "mut": []})
             for _ in range(rng.randint(1, 4 if big else 3)):
                 msgs.append(gen_msgspec(rng))
+            end = rng.choice(["close", "close", "rst"])
+            if commt and rng.random() < 0.3:
+                end = "stall"       # stays connected and silent far longer than COMMTIMEOUT: the server's own timeout must end it
             peers.append({"start": rng.choice([0, 0, 0.01, 0.1, 0.4]), "msgs": msgs, "gap": rng.choice([0, 0, 0.01, 0.2]),
-                          "read": rng.random() < 0.5, "end": rng.choice(["close", "close", "rst"])})
+                          "read": rng.random() < 0.5, "end": end})
         return {"servertype": servertype, "commtimeout": commt, "pool": [1, size], "witnesses": nwit,
                 "witness_calls": rng.randint(3, 6), "witness_gap": rng.choice([0.0, 0.05, 0.2]),
                 "serializer": rng.choice(SERIALIZERS), "peers": peers,
@@ -361,6 +364,7 @@ class HostileWorld(World):
         victim = Victim(sched)
         uri = srv.register(victim, "tok")
         bound = [0]
+        lat = [0.0]
         stop = [False]
         wres = {}
         hostile_written = [0]
@@ -378,10 +382,12 @@ class HostileWorld(World):
             bound[0] += 1
             for i in range(plan["witness_calls"]):
                 tok = "W%d.%d" % (wi, i)
+                t0 = sched.now
                 try:
                     res.append((tok, "ok", p.echo(tok)))
                 except Exception as x:  # noqa
                     res.append((tok, "ERR", type(x).__name__, str(x)[:100]))
+                lat[0] = max(lat[0], sched.now - t0)
                 if plan["witness_gap"]:
                     sched.sleep(plan["witness_gap"])
             # stay connected until the hostile peers are done, then one more call.  With a server-side COMMTIMEOUT an
@@ -392,8 +398,10 @@ class HostileWorld(World):
                     sched.block(lambda: stop[0], plan["commtimeout"] / 4.0, "witness-wait")
                     tok = "W%d.k%d" % (wi, k)
                     k += 1
+                    t0 = sched.now
                     try:
                         res.append((tok, "ok", p.echo(tok)))
+                        lat[0] = max(lat[0], sched.now - t0)
                     except Exception as x:  # noqa
                         res.append((tok, "ERR", type(x).__name__, str(x)[:100]))
                         break
@@ -462,6 +470,9 @@ class HostileWorld(World):
                 ctx.probe("rst_end")
                 sk.rst()
             else:
+                if peer["end"] == "stall" and plan["commtimeout"]:
+                    ctx.probe("stalling_peer")
+                    sched.sleep(plan["commtimeout"] * 8)
                 sk.close()
 
         wts = [threading.Thread(target=witness, args=(i,), name="witness%d" % i) for i in range(plan["witnesses"])]
@@ -493,6 +504,13 @@ class HostileWorld(World):
                     ctx.violate("witness-foreign-reply", "", "witness %d call %s returned %r" % (wi, r[0], r[2]))
                 else:
                     ctx.probe("witness_calls_ok")
+        # bounded liveness under a configured COMMTIMEOUT: every read the server blocks in for a hostile connection ends after
+        # COMMTIMEOUT at the latest (and that connection is then closed), so a witness call waits at most one timeout per peer
+        if plan["commtimeout"]:
+            limit = (len(plan["peers"]) + 1) * plan["commtimeout"] + 1.0
+            if lat[0] > limit:
+                ctx.violate("witness-call-too-slow", "", "a witness call took %.2f virtual seconds with COMMTIMEOUT=%.1f and %d hostile peers "
+                            "(limit %.2f): a server-side read on a hostile connection did not time out" % (lat[0], plan["commtimeout"], len(plan["peers"]), limit))
         # (b) daemon loop alive and accepting
         if not srv.loop_alive():
             d = srv.loop_death()
